@@ -208,6 +208,40 @@ def renewAll (env : Env) (secret : Bytes) (newExpire : Nat) : Bucket → Bucket 
     | (f', none) => let (r, e) := renewAll env secret newExpire rest; ((n, f') :: r, e)
     | (f', some e) => ((n, f') :: rest, some e)
 
+/-- an immutable upload in progress: (share number, allocated size = the writer's `_max_size`, incoming file) -/
+abbrev Incoming := List (Nat × Nat × File)
+
+/-- `StorageServer.allocate_buckets(storage_index, renew, cancel, {n}, allocated_size)` on a bucket of immutable
+    shares: the lease is added to / renewed on every share already held (`owner_num = 0`), then — unless share `n`
+    exists or is being uploaded, or space is short — a `BucketWriter` is created: a new incoming container
+    holding the lease.  Returns (bucket, incoming, writer created?, error). -/
+def allocate (env : Env) (b : Bucket) (inc : Incoming) (n size : Nat) (renew cancel : Bytes) :
+    Bucket × Incoming × Bool × Option Err :=
+  let li : Lease := { owner := 0, expire := env.now + renewalTime, renew := renew, cancel := cancel, nodeid := env.nodeid }
+  match addLeaseAll env li b with
+  | (b', some e) => (b', inc, false, some e)
+  | (b', none) =>
+    let remaining := env.avail - (inc.map (·.2.1)).sum
+    if (lookup b' n).isSome || (inc.find? (·.1 == n)).isSome then (b', inc, false, none)
+    else if remaining ≥ size then (b', inc ++ [(n, size, ImmL.createWithLease env.h size li)], true, none)
+    else (b', inc, false, none)
+
+/-- `BucketWriter.write(offset, data)` for non-overlapping writes (the conflict check against earlier writes is
+    C22's subject): `ShareFile.write_share_data` on the incoming file -/
+def bucketWrite (inc : Incoming) (n off : Nat) (d : Bytes) : Option (Incoming × Option Err) :=
+  match inc.find? (·.1 == n) with
+  | none => none
+  | some (_, size, f) =>
+    match ImmL.writeShareData f (some size) off d with
+    | .error e => some (inc, some e)
+    | .ok f' => some (inc.map (fun p => if p.1 == n then (n, size, f') else p), none)
+
+/-- `BucketWriter.close()`: the incoming file is renamed to its final place in the bucket -/
+def bucketClose (b : Bucket) (inc : Incoming) (n : Nat) : Option (Bucket × Incoming) :=
+  match inc.find? (·.1 == n) with
+  | none => none
+  | some (_, _, f) => some (store b n f, inc.filter (·.1 != n))
+
 /-- `StorageServer.renew_lease`: `IndexError` when the bucket holds no share file at all -/
 def serverRenewLease (env : Env) (b : Bucket) (secret : Bytes) : Bucket × Option Err :=
   if (b.filter fun p => kindOf p.2 != .other).isEmpty then (b, some .indexError)
